@@ -193,7 +193,7 @@ pub(crate) fn run() -> Result<(), Box<dyn std::error::Error>> {
         let cmd: Value = match serde_json::from_str(&line) {
             Ok(v) => v,
             Err(e) => {
-                writeln!(stdout.lock(), "{}", json!({"error": format!("bad command: {e}")}))?;
+                writeln!(stdout.lock(), "\n@@VERIF {}", json!({"error": format!("bad command: {e}")}))?;
                 continue;
             }
         };
@@ -288,8 +288,10 @@ pub(crate) fn run() -> Result<(), Box<dyn std::error::Error>> {
             "quit" => break,
             other => json!({"error": format!("unknown command {other}")}),
         };
+        // parol itself prints to stdout (resolved LALR conflicts); replies carry a marker so that
+        // the driver can tell them from such output
         let mut out = stdout.lock();
-        writeln!(out, "{reply}")?;
+        writeln!(out, "\n@@VERIF {reply}")?;
         out.flush()?;
     }
     Ok(())
